@@ -409,12 +409,29 @@ fn gen_block(rng: &mut Rng, room: usize, seqno: &mut u64, o: &GenOpts) -> Block 
         lines.extend(data_lines(rng, &[v.to_string()]));
     } else if pick < 96 && big && o.tools {
         *seqno += 1;
-        let item = crate::provider::function_call_item(Some("fc_1"), "call_1", "read", "{}", "in_progress");
-        let v = match rng.below(3) {
+        // providers of the "missing item ids" kind omit `item.id` / `item_id`: the frame must still carry exactly
+        // what was sent (the compat validation profile works on a normalised copy)
+        let with_ids = rng.bool();
+        let item = crate::provider::function_call_item(if with_ids { Some("fc_1") } else { None }, "call_1", "read", "{}", "in_progress");
+        let mut v = match rng.below(6) {
             0 => crate::provider::ev_item_added(*seqno, 0, item),
             1 => crate::provider::ev_args_delta(*seqno, "fc_1", 0, "{\"pa"),
-            _ => crate::provider::ev_args_done(*seqno, "fc_1", 0, "{\"path\":\"a\"}"),
+            2 => crate::provider::ev_args_done(*seqno, "fc_1", 0, "{\"path\":\"a\"}"),
+            3 => crate::provider::ev_item_done(*seqno, 1, item),
+            4 => {
+                let mut out = json!({"type":"function_call_output","call_id":"call_1","output":"ok"});
+                if with_ids {
+                    out["id"] = json!("fco_1");
+                }
+                crate::provider::ev_item_done(*seqno, 2, out)
+            }
+            _ => ev_completed(*seqno, "resp_1", json!([item])),
         };
+        if !with_ids {
+            if let Some(o) = v.as_object_mut() {
+                o.remove("item_id");
+            }
+        }
         let name = v.get("type").and_then(|t| t.as_str()).unwrap_or("x").to_string();
         lines.push(event_line(rng, &name));
         lines.extend(data_lines(rng, &[v.to_string()]));
@@ -761,7 +778,7 @@ fn a_case(cfg: &Cfg, r: &mut Report, idx: u64) {
     if s.is_empty() {
         return;
     }
-    let validation = if rng.chance(1, 4) {
+    let validation = if rng.chance(2, 5) {
         ValidationOptions::compat_missing_item_ids()
     } else {
         ValidationOptions::strict()
